@@ -3,6 +3,7 @@ from .. import core, corpus, spec_print, run_kani, vspec, oracle
 from .common import Unit
 
 class PrintUnit(Unit):
+    kani_harness_timeout = 1200
     rule = ('enumerated: {no attr, to_string, 1..3 serialize of distinct lengths in every order, both} x prefix {none, "", ASCII, non-ASCII} x '
             'serialize_all styles x kinds/generics x disabled placement x const_into_str x default/transparent with inner Cap / nested derived enum / &\'static str '
             '(quick: 11 programs; thorough: + 60 systematic over all 17 style strings)')
@@ -30,8 +31,9 @@ class PrintUnit(Unit):
             multi = [p for p in cands if any(ord(c) > 127 for v in spec_print.grid_variants(p) for c in oracle.canonical_names(p, v)[0])]
             rest = [p for p in cands if p not in multi]
             self._grid_progs = set(p.name for p in multi[:3] + rest[:3])
-        if prog.name in self._grid_progs:
-            hs += [('grid_' + v.ident, 'format specs on %s' % v.ident) for v in spec_print.grid_variants(prog)]
+        # the format-spec twins take minutes: only when the function that left Verus' reach is the Display impl
+        if prog.name in self._grid_progs and any('fmt' in f for f in fns):
+            hs += [('grid_%s_%s' % (v.ident, part), 'format specs on %s' % v.ident) for v in spec_print.grid_variants(prog) for part in ('a', 'b')]
         return hs
     def kani_harnesses(self, ctx, prog):
         if ctx.pid != 'C03' or 'random' in prog.tags:
